@@ -82,7 +82,7 @@ func TestRacePass(t *testing.T) {
 	i4 := pki.NewCA("C14 race I4", pki.LoadKey("p256-5"), rootB, pki.CAOpts{})
 	lk := pki.LoadKey("p256-7")
 	var subs []sub
-	for n := 0; n < 6; n++ {
+	for n := 0; n < 4; n++ {
 		for _, ca := range []*pki.Cert{i1, i2, i4, rootA} {
 			var chain [][]byte
 			for c := ca; c != nil && c.Parent != nil; c = c.Parent {
@@ -97,7 +97,7 @@ func TestRacePass(t *testing.T) {
 	}
 	runs := 0
 	var bad atomic.Int64
-	for it := 0; it < 24; it++ {
+	for it := 0; it < 12; it++ {
 		var inner cache.IssuanceChainCache
 		switch it % 4 {
 		case 0:
